@@ -1,0 +1,31 @@
+//go:build verif
+
+// Copyright JAMF Software, LLC
+
+package storage
+
+import "context"
+
+// VerifItem is one queued waiter as seen by the verification harness.
+type VerifItem struct {
+	Revision uint64
+	Ctx      context.Context
+	Ch       chan error
+}
+
+// VerifDump returns the per-table heap arrays in array order. Verification hook, compiled only with
+// the verif build tag; must only be called while the Run loop is idle.
+func (q *IndexNotificationQueue) VerifDump() map[string][]VerifItem {
+	out := map[string][]VerifItem{}
+	q.items.Keys()(func(k string) bool {
+		out[k] = nil
+		return true
+	})
+	for k := range out {
+		h, _ := q.items.Load(k)
+		for _, it := range h.Slice {
+			out[k] = append(out[k], VerifItem{Revision: it.revision, Ctx: it.ctx, Ch: it.waitCh})
+		}
+	}
+	return out
+}
